@@ -6,6 +6,7 @@ import (
 	"go/constant"
 	"go/token"
 	"go/types"
+	"math"
 	"math/big"
 	"strconv"
 	"strings"
@@ -226,6 +227,11 @@ func (fc *FnCtx) evalExpr(x ast.Expr, env *Env) Val {
 			if !ok {
 				panic(specErr("bad float literal " + x.Value))
 			}
+			// a float literal in a contract denotes the float64 nearest to it, as the same
+			// literal does in the code (0.8 is 3602879701896397/2^52 on both sides)
+			if f, _ := r.Float64(); !math.IsInf(f, 0) {
+				r.SetFloat64(f)
+			}
 			return Val{K: KReal, S: ratTerm(r)}
 		case token.STRING:
 			s, _ := strconv.Unquote(x.Value)
@@ -293,7 +299,15 @@ func (fc *FnCtx) evalIdent(x *ast.Ident, env *Env) Val {
 	}
 	if env.loop != nil && fc.frameParent != nil && fc.loopSpecBase >= 0 {
 		// an invariant of the function under contract, evaluated at a loop that was moved into
-		// this (inlined) helper: names of the function under contract come first
+		// this (inlined) helper: the helper's own loop-carried variables come first (the loop
+		// updates them, the caller's variable of the same name is stale while it runs), then
+		// the names of the function under contract
+		if env.lookup != nil {
+			fc.lastRole = ""
+			if v, ok := env.lookup(x.Name); ok && strings.HasPrefix(fc.lastRole, "phi:") {
+				return v
+			}
+		}
 		root := fc.root()
 		if v, ok := root.params[x.Name]; ok {
 			return v
@@ -426,6 +440,10 @@ func (fc *FnCtx) selectField(v Val, name string, env *Env) Val {
 				if isObjectType(s.Field(i).Type()) {
 					// a by-value struct field: yield a pointer-like struct handle
 					if structOf(s.Field(i).Type()) != nil {
+						return Val{K: KPtr, T: types.NewPointer(s.Field(i).Type()), S: fp.S}
+					}
+					if at, isArr := s.Field(i).Type().Underlying().(*types.Array); isArr && structOf(at.Elem()) != nil {
+						// an array of structs held by value: a handle to the array, indexed through evalIndex
 						return Val{K: KPtr, T: types.NewPointer(s.Field(i).Type()), S: fp.S}
 					}
 					return fc.vc.load(env.state(), fp, s.Field(i).Type())
@@ -720,6 +738,10 @@ func (fc *FnCtx) evalCall(x *ast.CallExpr, env *Env) Val {
 		row := strings.TrimSuffix(strings.TrimPrefix(sort, "(Array Int "), ")")
 		a := arg(0)
 		return Val{K: a.K, S: app("store", a.S, fc.idxTerm(arg(1)), "((as const "+row+") "+arg(2).S+")")}
+	case "strcat":
+		// strcat(a, b): the string a + b (the same application the code's + produces)
+		fc.vc.sc.declareFun("strcat", []string{"Str", "Str"}, "Str")
+		return Val{K: KStr, T: types.Typ[types.String], S: app("strcat", arg(0).S, arg(1).S)}
 	case "pureBool", "pureStr", "pureInt":
 		// pureBool("(time.Time).After", a, b): the boolean result of a `pure` extern function on
 		// these arguments (the same uninterpreted application a call in the code produces)
@@ -1003,6 +1025,14 @@ func (fc *FnCtx) evalCall(x *ast.CallExpr, env *Env) Val {
 	}
 	if i := strings.Index(fn.Name, "_"); i > 0 && fc.pkg != nil {
 		key := fc.pkg.Types.Name() + "." + fn.Name[:i] + "." + fn.Name[i+1:]
+		if _, here := fc.eng.cs.Funcs["fnfield:"+key]; !here && len(x.Args) > 0 {
+			// the field's owner may live in another package: take it from the argument's type
+			if pt, isP := arg(0).T.(*types.Pointer); isP {
+				if nt, isN := pt.Elem().(*types.Named); isN && nt.Obj().Pkg() != nil {
+					key = nt.Obj().Pkg().Name() + "." + fn.Name[:i] + "." + fn.Name[i+1:]
+				}
+			}
+		}
 		if con, ok := fc.eng.cs.Funcs["fnfield:"+key]; ok && con.Pure {
 			con.Bound = true
 			this := arg(0)
